@@ -609,7 +609,11 @@ func (g *gen) mainPass() {
 	g.w.Meta["gomaxprocs"] = runtime.GOMAXPROCS(0)
 
 	// ---- regression corpus ----
-	g.shared(5, 3, 11, "fixed", 1) // a shared host slice is shuffled elsewhere in the middle of a cycle
+	g.shared(5, 3, 11, "fixed", 1)                                                  // a shared host slice is shuffled elsewhere in the middle of a cycle
+	g.seqStable(hostList(2), patternReports(hostList(2), "Sa", 12), 0, nil, "Sa")   // two hosts, every other lookup fails
+	g.seqStable(hostList(3), patternReports(hostList(3), "Sea", 18), 4, nil, "Sea") // three hosts, two of three lookups fail
+	g.mwReuse(mwCtors[5], []report{{Hosts: hostList(3)}, {Hosts: []string{"http://x0.t:8080"}}, {Hosts: []string{}}, {Err: "a"}},
+		[]string{"fresh", "same", "same", "same"}, "retry-same-object") // one request object sent again after the list changed
 	for _, c := range mwCtors {
 		if c.kind == "rr" {
 			g.mwByName(c, hostList(5), 16, "fixed")
@@ -664,6 +668,8 @@ func (g *gen) mainPass() {
 	g.allMiddlewareConstructors()
 	g.sharedSlices()
 	g.instanceReuse()
+	g.stableHistories()
+	g.requestReuse()
 
 	// ---- scripted dynamic subscribers ----
 	nd := 120
@@ -738,5 +744,5 @@ func (g *gen) mainPass() {
 		g.u32batch(100)
 	}
 	g.w.Meta["uint32n_triples"] = nb * 100
-	g.w.Close("regression corpus (single host, empty/nil list, counter at and across the uint64 wrap, duplicate entries); every exported middleware constructor of proxy/balancing.go by name (round robin: fairness of the hosts the next proxy sees, GOMAXPROCS > 1; random: membership + share; generic: membership; subscriber variants also over scripted dynamic subscribers); a host slice shared between a round robin balancer (mid cycle) and sd.NewRandomFixedSubscriber, sizes up to 150 (thorough 257), slice compared before/after; instance reuse (one balancer: sequence, concurrent burst, sequence; one middleware instance under concurrent callers with distinct requests); every list size 0..64 x constructors (FixedSubscriber with lura's own start position / SubscriberFunc with the counter set through the hook) x call counts {n, 2n+1, 3n+2} (thorough: 8 call counts, 4 counter positions) sequentially, and through the round robin middleware; scripted dynamic subscribers (errors, empty, nil, shrinking/growing/permuted lists, duplicates) for round robin, random (injected seeded fastrand.RNG) and the three middlewares; concurrent callers: every size 0..64 and every caller count 1..32 (thorough: the full 65 x 32 grid) with real goroutines; random share over 64 n draws; fastrand.RNG.Uint32n against the multiply-shift model. nontrivial = more than one host (and more than one call / caller)", true)
+	g.w.Close("regression corpus (single host, empty/nil list, counter at and across the uint64 wrap, duplicate entries); every exported middleware constructor of proxy/balancing.go by name (round robin: fairness of the hosts the next proxy sees, GOMAXPROCS > 1; random: membership + share; generic: membership; subscriber variants also over scripted dynamic subscribers); a stable list with failing lookups in between (patterns Sa, Se, aS, Saa, SaeSnbS, SSSSa, SbS, single failure, random; Host() and the round robin middlewares; concurrent callers with every other lookup failing); request reuse through every subscriber-taking middleware constructor (same request object / CloneRequest / Clone() sent again after the list changed to other hosts, empty, an error; a fixed list with one request re-sent M times); a host slice shared between a round robin balancer (mid cycle) and sd.NewRandomFixedSubscriber, sizes up to 150 (thorough 257), slice compared before/after; instance reuse (one balancer: sequence, concurrent burst, sequence; one middleware instance under concurrent callers with distinct requests); every list size 0..64 x constructors (FixedSubscriber with lura's own start position / SubscriberFunc with the counter set through the hook) x call counts {n, 2n+1, 3n+2} (thorough: 8 call counts, 4 counter positions) sequentially, and through the round robin middleware; scripted dynamic subscribers (errors, empty, nil, shrinking/growing/permuted lists, duplicates) for round robin, random (injected seeded fastrand.RNG) and the three middlewares; concurrent callers: every size 0..64 and every caller count 1..32 (thorough: the full 65 x 32 grid) with real goroutines; random share over 64 n draws; fastrand.RNG.Uint32n against the multiply-shift model. nontrivial = more than one host (and more than one call / caller)", true)
 }
